@@ -8,6 +8,7 @@ package buf
 
 import (
 	"fmt"
+	"strings"
 	"testing"
 	"testing/synctest"
 
@@ -123,7 +124,9 @@ type liveValue struct {
 	fullOpt       *obs.Options
 	exempt        [][2]int // absolute [start,end) ranges in its buffer
 	exemptTouched bool
-	restricted    bool // opt leaves the exempt parts out
+	restricted    bool            // opt leaves the exempt parts out
+	mask          map[string]bool // members that are not stable without any overwrite
+	fullMask      map[string]bool
 	id            int
 	ad            *adapters.Adapter
 	val           any
@@ -142,14 +145,55 @@ type liveValue struct {
 // The consumers work on the whole serialisation, so for a LeaseSet2 or
 // MetaLeaseSet (whose options the property leaves out) they belong to the
 // full observation only — the one judged while the exempt bytes are intact.
-func observe(v any, opt *obs.Options, whole bool) string {
+func observe(v any, opt *obs.Options, whole bool, mask map[string]bool) string {
+	return render(observeMembers(v, opt, whole), mask)
+}
+
+// member is one top-level member of an observation (a field, an accessor, an
+// accessor with synthesised arguments, the consumer functions).
+type member struct{ name, text string }
+
+func observeMembers(v any, opt *obs.Options, whole bool) []member {
 	o2 := *opt
 	o2.Args, o2.ArgMethod = consume.SynthArgs, func(n string) bool { return consume.ReadOnlyName(n) && n != "Equals" && n != "Equal" }
+	var ms []member
+	o2.Part = func(n, t string) { ms = append(ms, member{n, t}) }
 	s := obs.Observe(v, &o2)
-	if whole {
-		s += " || consumers: " + consume.Consumers(v)
+	if len(ms) == 0 {
+		ms = []member{{"(value)", s}}
 	}
-	return s
+	if whole {
+		ms = append(ms, member{"(consumers)", consume.Consumers(v)})
+	}
+	return ms
+}
+
+func render(ms []member, mask map[string]bool) string {
+	var sb strings.Builder
+	for _, m := range ms {
+		if !mask[m.name] {
+			sb.WriteString(m.text)
+		}
+	}
+	return sb.String()
+}
+
+// unstable names the members whose text differs between two observations taken
+// one after the other with nothing in between: an accessor that reads a clock,
+// counts its calls or reports anything else that is not a function of the parsed
+// value. Such a member cannot tell whether an overwrite changed the value and is
+// left out of this value's comparisons.
+func unstable(a, b []member) map[string]bool {
+	var mask map[string]bool
+	for i := range a {
+		if i >= len(b) || a[i].name != b[i].name || a[i].text != b[i].text {
+			if mask == nil {
+				mask = map[string]bool{}
+			}
+			mask[a[i].name] = true
+		}
+	}
+	return mask
 }
 
 func scribbleBytes(b []byte, mode int, seed uint64) {
@@ -281,7 +325,7 @@ func execute(s *engine.Script, o *engine.Outcome) {
 				continue
 			}
 			var got string
-			if o.Guard("observe "+lv.ad.Name, func() { got = observe(lv.val, lv.opt, !lv.restricted) }) {
+			if o.Guard("observe "+lv.ad.Name, func() { got = observe(lv.val, lv.opt, !lv.restricted, lv.mask) }) {
 				lv.dead = true
 				continue
 			}
@@ -293,7 +337,7 @@ func execute(s *engine.Script, o *engine.Outcome) {
 			}
 			if lv.fullOpt != nil && !lv.exemptTouched {
 				var full string
-				if o.Guard("observe(full) "+lv.ad.Name, func() { full = observe(lv.val, lv.fullOpt, true) }) {
+				if o.Guard("observe(full) "+lv.ad.Name, func() { full = observe(lv.val, lv.fullOpt, true, lv.fullMask) }) {
 					continue
 				}
 				o.Probe("full_observations_of_ls2_mls_with_options_untouched")
@@ -403,13 +447,24 @@ func execute(s *engine.Script, o *engine.Outcome) {
 				subject = tr.Val
 				o.Fault("value-untouched-until-first-overwrite")
 			}
-			if o.Guard("observe "+ad.Name, func() { lv.base = observe(subject, lv.opt, !lv.restricted) }) {
+			if o.Guard("observe "+ad.Name, func() {
+				first := observeMembers(subject, lv.opt, !lv.restricted)
+				lv.mask = unstable(first, observeMembers(subject, lv.opt, !lv.restricted))
+				lv.base = render(first, lv.mask)
+			}) {
 				continue
 			}
 			if lv.fullOpt != nil {
-				if o.Guard("observe(full) "+ad.Name, func() { lv.fullBase = observe(subject, lv.fullOpt, true) }) {
+				if o.Guard("observe(full) "+ad.Name, func() {
+					first := observeMembers(subject, lv.fullOpt, true)
+					lv.fullMask = unstable(first, observeMembers(subject, lv.fullOpt, true))
+					lv.fullBase = render(first, lv.fullMask)
+				}) {
 					lv.fullOpt = nil
 				}
+			}
+			for _, n := range engine.SortedKeys(lv.mask) {
+				o.Probe("member_not_a_function_of_the_value:" + ad.Name + "." + n)
 			}
 			live = append(live, lv)
 			lastFrame[b] = lv
